@@ -272,7 +272,55 @@ pub fn name_case_oracle(rec: &mut Rec, rng: &mut Rng) {
     }
 }
 
+/// the public setters of `Headers` (`set_accept`, `insert_custom_header`) mixed with parsed lines: a value set
+/// directly is kept until a later line or call replaces it, a custom key is stored exactly as given
+fn setter_case(rec: &mut Rec, rng: &mut Rng) {
+    rec.case("setters");
+    rec.nontrivial();
+    rec.op("hdrnew", "ok");
+    let mut h = Headers::default();
+    let mut log = vec!["hdrnew".to_string()];
+    let keys: [&str; 5] = ["X-A", "x-a", "Accept", " padded ", ""];
+    for _ in 0..rng.range(2, 7) {
+        match rng.below(3) {
+            0 => {
+                let json = rng.chance(1, 2);
+                h.set_accept(if json { micro_http::MediaType::ApplicationJson } else { micro_http::MediaType::PlainText });
+                let op = format!("hdrsetaccept {}", if json { "json" } else { "plain" });
+                log.push(op.clone());
+                rec.op(&op, &format!("ok {}", show_headers(&h)));
+                if (h.accept() == micro_http::MediaType::ApplicationJson) != json {
+                    rec.oracle_fail("C15", "set_accept did not set the Accept media type", &log);
+                }
+            }
+            1 => {
+                let k = *rng.pick(&keys);
+                let v = *rng.pick(&["v1", "", " v ", "\u{e9}"]);
+                let _ = h.insert_custom_header(k.to_string(), v.to_string());
+                let op = format!("hdrinsert {} {}", hx(k.as_bytes()), hx(v.as_bytes()));
+                log.push(op.clone());
+                rec.op(&op, &format!("ok {}", show_headers(&h)));
+                if h.custom_entries().get(k).map(|x| x.as_str()) != Some(v) {
+                    rec.oracle_fail("C15", "insert_custom_header did not store the pair as given", &log);
+                }
+            }
+            _ => {
+                let l: &[u8] = *rng.pick(&[&b"Accept: application/json"[..], b"Accept: text/plain", b"X-A: parsed", b"x-a:other", b"Content-Length: 7"]);
+                let op = format!("hdrline {}", hx(l));
+                log.push(op.clone());
+                match h.parse_header_line(l) {
+                    Ok(()) => rec.op(&op, &format!("ok {}", show_headers(&h))),
+                    Err(e) => rec.op(&op, &format!("err {} {}", show_req_err(&e), show_headers(&h))),
+                }
+            }
+        }
+    }
+}
+
 pub fn run(rec: &mut Rec, rng: &mut Rng, thorough: bool) {
+    for _ in 0..(if thorough { 3000 } else { 150 }) {
+        setter_case(rec, rng);
+    }
     // Encoding::try_from over its alphabet
     rec.case("encodings");
     for v in gen::AE_VALUES {
